@@ -204,6 +204,11 @@ class Ctx:
             self.unconfirmed.append({"what": what, "w": None, "relaxed": relaxed, "error": "no witness builder"})
             return
         m = model if model is not None else eng.get_model()
+        if callable(w):
+            w = w(m)                 # witness built from the model (e.g. an operation sequence whose length is a model value)
+            if w is None:
+                self.unconfirmed.append({"what": what, "w": None, "relaxed": True, "error": "no replayable witness for this model"})
+                return
         cw = conc(m, w)
         key = hashlib.sha1(json.dumps([what.split(":")[0], cw], sort_keys=True).encode()).hexdigest()
         if key in self.path_keys:
